@@ -1,3 +1,4 @@
-import Gsu.Model.DbDrive
-/-! C16 driver: the shared M-DB physical model behind the line protocol (see Gsu/Model/DbDrive.lean). -/
-def main : IO Unit := Gsu.Proto.runS Gsu.Db.State.init Gsu.Db.driveStep
+import Gsu.Model.DbOK
+/-! C16 driver: the shared M-DB physical model behind the line protocol (see Gsu/Model/DbDrive.lean),
+with the hypotheses of the invariant theorems checked on every operation (Gsu/Model/DbOK.lean). -/
+def main : IO Unit := Gsu.Proto.runS Gsu.Db.DState.init Gsu.Db.driveStepOK
